@@ -44,8 +44,9 @@ class Air:
         port = FakeSerial(on_write=self._port_wrote)
         self.ports.pop(old.name, None)
         self.ports[port.name] = (port, gwy_id)
-        _REGISTRY[old.name] = port  # what the gateway's port name resolves to from now on
-        port.alias = old.name  # type: ignore[attr-defined]
+        path = getattr(old, "alias", old.name)  # the device path the gateway was given (also after earlier swaps)
+        _REGISTRY[path] = port  # what that path resolves to from now on
+        port.alias = path  # type: ignore[attr-defined]
         return port
 
     def add_listener(self, fn: Callable[[str], Any]) -> None:
